@@ -1,8 +1,11 @@
 package main
 
 import (
+	"fmt"
 	"go/token"
 	"go/types"
+	"sort"
+	"strings"
 
 	"golang.org/x/tools/go/ssa"
 )
@@ -188,4 +191,155 @@ func hasPrefixPath(a, b []string) bool { // is a a prefix of b
 		}
 	}
 	return true
+}
+
+// ---- feasibility-aware reachability ---------------------------------------------
+//
+// feasibleReach explores the CFG from an instruction (nil: the function entry)
+// carrying the truth values of bool SSA values learnt from the branches taken and
+// propagated through phis, and does not follow a branch whose condition is known
+// to go the other way. It decides the one correlation that plain dominance
+// cannot: `x, ok := get(); if !ok { x, ok = tryClaim() }; if ok { return }; use(x)`
+// — the use is only reachable through tryClaim, because on the edge that skips
+// it `ok` is known to be true. SSA values are immutable, so a fact stays true
+// along a path; facts are dropped on back edges (a loop redefines its values).
+func feasibleReach(f *ssa.Function, start ssa.Instruction, facts map[ssa.Value]bool, target func(ssa.Instruction) bool, avoid func(ssa.Instruction) bool) bool {
+	if len(f.Blocks) == 0 {
+		return false
+	}
+	type state struct {
+		b     *ssa.BasicBlock
+		from  int // index of the first instruction to look at
+		facts map[ssa.Value]bool
+	}
+	known := func(facts map[ssa.Value]bool, v ssa.Value) (bool, bool) {
+		for d := 0; d < 4; d++ {
+			if k, ok := v.(*ssa.Const); ok && k.Value != nil && isBoolType(k.Type()) {
+				return k.Value.String() == "true", true
+			}
+			if t, ok := facts[v]; ok {
+				return t, true
+			}
+			if u, ok := v.(*ssa.UnOp); ok && u.Op == token.NOT {
+				if t, ok := known2(facts, u.X); ok {
+					return !t, true
+				}
+			}
+			break
+		}
+		return false, false
+	}
+	key := func(s state) string {
+		var parts []string
+		for v, t := range s.facts {
+			parts = append(parts, fmt.Sprintf("%s=%v", v.Name(), t))
+		}
+		sort.Strings(parts)
+		return fmt.Sprintf("%d/%d|%s", s.b.Index, s.from, strings.Join(parts, ","))
+	}
+	seen := map[string]bool{}
+	var work []state
+	cp := func(m map[ssa.Value]bool) map[ssa.Value]bool {
+		out := map[ssa.Value]bool{}
+		for k, v := range m {
+			out[k] = v
+		}
+		return out
+	}
+	if start == nil {
+		work = append(work, state{f.Blocks[0], 0, cp(facts)})
+	} else {
+		b := start.Block()
+		for i, ins := range b.Instrs {
+			if ins == start {
+				work = append(work, state{b, i + 1, cp(facts)})
+			}
+		}
+	}
+	steps := 0
+	for len(work) > 0 && steps < 20000 {
+		steps++
+		s := work[len(work)-1]
+		work = work[:len(work)-1]
+		k := key(s)
+		if seen[k] {
+			continue
+		}
+		seen[k] = true
+		stopped := false
+		for _, ins := range s.b.Instrs[s.from:] {
+			if avoid != nil && avoid(ins) {
+				stopped = true
+				break
+			}
+			if target(ins) {
+				return true
+			}
+		}
+		if stopped {
+			continue
+		}
+		enter := func(succ *ssa.BasicBlock, add map[ssa.Value]bool) {
+			nf := cp(s.facts)
+			if succ.Dominates(s.b) {
+				nf = map[ssa.Value]bool{} // back edge: the loop redefines its values
+			}
+			for v, t := range add {
+				nf[v] = t
+			}
+			// phis of succ for the edge from s.b
+			pi := -1
+			for i, pr := range succ.Preds {
+				if pr == s.b {
+					pi = i
+				}
+			}
+			if pi >= 0 {
+				for _, ins := range succ.Instrs {
+					ph, ok := ins.(*ssa.Phi)
+					if !ok {
+						break
+					}
+					if !isBoolType(ph.Type()) {
+						continue
+					}
+					delete(nf, ph)
+					if t, ok := known(nf, ph.Edges[pi]); ok {
+						nf[ph] = t
+					}
+				}
+			}
+			work = append(work, state{succ, 0, nf})
+		}
+		switch t := s.b.Instrs[len(s.b.Instrs)-1].(type) {
+		case *ssa.If:
+			val, ok := known(s.facts, t.Cond)
+			learn := func(side bool) map[ssa.Value]bool {
+				m := map[ssa.Value]bool{t.Cond: side}
+				if u, isNot := t.Cond.(*ssa.UnOp); isNot && u.Op == token.NOT {
+					m[u.X] = !side
+				}
+				return m
+			}
+			if !ok || val {
+				enter(s.b.Succs[0], learn(true))
+			}
+			if !ok || !val {
+				enter(s.b.Succs[1], learn(false))
+			}
+		default:
+			for _, succ := range s.b.Succs {
+				enter(succ, nil)
+			}
+		}
+	}
+	return false
+}
+
+func known2(facts map[ssa.Value]bool, v ssa.Value) (bool, bool) {
+	if k, ok := v.(*ssa.Const); ok && k.Value != nil && isBoolType(k.Type()) {
+		return k.Value.String() == "true", true
+	}
+	t, ok := facts[v]
+	return t, ok
 }
